@@ -61,26 +61,37 @@ MUST_REACH = ['debian.changelog:Changelog.parse_changelog',
               'debian.changelog:Changelog._format',
               'debian.changelog:ChangeBlock._format']
 
-TEXTS = {'quick': 24000, 'thorough': 1200000}     # random models, total over all shards
+TEXTS = {'quick': 16000, 'thorough': 600000}     # random models, total over all shards
 
 FLOORS = {
-    'quick': {'nontrivial': 6000,
-              'monitors': {'M': 70000, 'M.attrs': 200000},
-              'counters': {'feat:urgency-comment': 1500, 'feat:extra-kv': 2000, 'feat:multi-dist': 4000,
-                           'feat:pkg-dot': 2000, 'feat:dist-dot': 1000, 'feat:day-1digit': 2000,
-                           'feat:no-weekday': 2000, 'feat:zone-minus': 5000, 'feat:lead-blank': 2000,
-                           'feat:inner-blank': 3000, 'feat:nonascii-change': 4000, 'feat:hash-or-colon': 4000,
-                           'feat:multi-block': 4000, 'form:str': 8000, 'form:bytes': 8000, 'form:lines': 8000,
-                           'form:file': 8000, 'form:bfile': 8000, 'form:method': 8000, 'matrix': 100}},
-    'thorough': {'nontrivial': 350000,
-                 'monitors': {'M': 4000000, 'M.attrs': 12000000},
-                 'counters': {'feat:urgency-comment': 90000, 'feat:extra-kv': 120000, 'feat:multi-dist': 250000,
-                              'feat:pkg-dot': 120000, 'feat:dist-dot': 60000, 'feat:day-1digit': 120000,
-                              'feat:no-weekday': 120000, 'feat:zone-minus': 300000, 'feat:lead-blank': 120000,
-                              'feat:inner-blank': 180000, 'feat:nonascii-change': 250000,
-                              'feat:hash-or-colon': 250000, 'feat:multi-block': 250000, 'form:str': 450000,
-                              'form:bytes': 450000, 'form:lines': 450000, 'form:file': 450000,
-                              'form:bfile': 450000, 'form:method': 450000, 'matrix': 100}},
+    # ~50% of what a run on the current tree measures (quick: 16353 cases; thorough: 600353 cases)
+    'quick': {'nontrivial': 7000,
+              'monitors': {'M': 73000, 'M.attrs': 170000},
+              'counters': {'feat:urgency-comment': 4700, 'feat:extra-kv': 5600, 'feat:extra-kv-2': 1800,
+                           'feat:multi-dist': 9500, 'feat:pkg-dot': 7000, 'feat:dist-dot': 5400,
+                           'feat:dist-uppercase': 7500, 'feat:urgency-uppercase': 9000, 'feat:day-1digit': 3400,
+                           'feat:no-weekday': 4700, 'feat:zone-minus': 9500, 'feat:lead-blank': 3100,
+                           'feat:inner-blank': 5900, 'feat:no-blank-after-header': 3000,
+                           'feat:no-blank-before-trailer': 3000, 'feat:nonascii-change': 16000,
+                           'feat:hash-or-colon': 16000, 'feat:hostile-maintainer-name': 12000,
+                           'feat:multi-block': 5000, 'feat:non-LF-line-boundary-in-change': 250,
+                           'form:str': 8000, 'form:bytes': 8000, 'form:lines': 8000, 'form:lines-nl': 8000,
+                           'form:blines': 8000, 'form:file': 8000, 'form:bfile': 8000, 'form:iter': 8000,
+                           'form:method': 8000, 'matrix': 170}},
+    'thorough': {'nontrivial': 250000,
+                 'monitors': {'M': 2700000, 'M.attrs': 6000000},
+                 'counters': {'feat:urgency-comment': 170000, 'feat:extra-kv': 200000, 'feat:extra-kv-2': 60000,
+                              'feat:multi-dist': 340000, 'feat:pkg-dot': 250000, 'feat:dist-dot': 190000,
+                              'feat:dist-uppercase': 270000, 'feat:urgency-uppercase': 320000,
+                              'feat:day-1digit': 120000, 'feat:no-weekday': 170000, 'feat:zone-minus': 340000,
+                              'feat:lead-blank': 110000, 'feat:inner-blank': 210000,
+                              'feat:no-blank-after-header': 100000, 'feat:no-blank-before-trailer': 100000,
+                              'feat:nonascii-change': 450000, 'feat:hash-or-colon': 450000,
+                              'feat:hostile-maintainer-name': 430000, 'feat:multi-block': 180000,
+                              'feat:non-LF-line-boundary-in-change': 8000,
+                              'form:str': 300000, 'form:bytes': 300000, 'form:lines': 300000,
+                              'form:lines-nl': 300000, 'form:blines': 300000, 'form:file': 300000,
+                              'form:bfile': 300000, 'form:iter': 300000, 'form:method': 300000, 'matrix': 170}},
 }
 
 # ---------------------------------------------------------------------------
@@ -814,8 +825,8 @@ def note_features(ctx, case):
             c('feat:version-tilde')
 
 
-LEVEL_TEXT = ('Runtime monitoring: 1.6e4 (quick) / 9e5 (thorough) seeded structured changelog models plus a fixed '
-              'one-feature-at-a-time matrix (~400 models) are rendered to text by the grammar of the statement and pushed '
+LEVEL_TEXT = ('Runtime monitoring: 1.6e4 (quick) / 6e5 (thorough) seeded structured changelog models plus a fixed '
+              'one-feature-at-a-time matrix (353 models) are rendered to text by the grammar of the statement and pushed '
               'through the live debian.changelog.Changelog in nine input forms (str, bytes, line lists with/without '
               'newline, bytes lines, text/binary file objects, iterator, Changelog().parse_changelog) with strict=True '
               'under warnings.catch_warnings(record=True); the boundary oracle requires no exception, no warning, '
